@@ -1,5 +1,6 @@
 import NetVerif.Driver.Util
 import NetVerif.Model.Dns
+import NetVerif.Model.DnsChecked
 /-! Line-protocol driver for the dnsmessage model (shared by C36 and C37). Stateless.
 
 Message syntax (tokens): `<id> <flags:7×0/1> <opcode> <rcode> <nq> Q* <nan> RR* <nau> RR* <nad> RR*`,
@@ -240,27 +241,27 @@ def step (_ : Unit) (line : String) : Unit × String :=
       | none => "bad-op"
     | ["unpack", b] =>
       match parseBytes b with
-      | some b => (match unpackMessage b with | .ok m => s!"ok {sMessage m}" | .error e => s!"err {e.tag}")
+      | some b => (match unpackMessageC b with | .ok m => s!"ok {sMessage m}" | .error e => s!"err {e.tag}")
       | none => "bad-op"
     | ["skipall", b] =>
       match parseBytes b with
-      | some b => (match skipMessage b with | .ok o => s!"ok {o}" | .error e => s!"err {e.tag}")
+      | some b => (match skipMessageC b with | .ok o => s!"ok {o}" | .error e => s!"err {e.tag}")
       | none => "bad-op"
     | ["walk", b, sc] =>
       match parseBytes b, pScript sc with
       | some b, some sc =>
-        (match walkMessage b sc with
+        (match walkMessageC b sc with
          | .ok (its, o) => " ".intercalate (["ok", toString o] ++ its.flatMap sItem)
          | .error e => s!"err {e.tag}")
       | _, _ => "bad-op"
     | ["uname", b, o] =>
       match parseBytes b, parseNat o with
       | some b, some o =>
-        (match unpackName b o with | .ok (n, o') => s!"ok {hexOfBytes n} {o'}" | .error e => s!"err {e.tag}")
+        (match unpackNameC b o with | .ok (n, o') => s!"ok {hexOfBytes n} {o'}" | .error e => s!"err {e.tag}")
       | _, _ => "bad-op"
     | ["sname", b, o] =>
       match parseBytes b, parseNat o with
-      | some b, some o => (match skipName b o with | .ok o' => s!"ok {o'}" | .error e => s!"err {e.tag}")
+      | some b, some o => (match skipNameC b o with | .ok o' => s!"ok {o'}" | .error e => s!"err {e.tag}")
       | _, _ => "bad-op"
     | "pnames" :: c :: rest =>
       match pCounted pGapName rest with
